@@ -241,16 +241,24 @@ def jobs(tier, seed):
             continue  # free characters next to emphasis delimiters, link syntax or entities cost 20-60 CPU-s per path (Unicode punctuation
             # classes, reference lookups, the 2 231-entry entity table): those fragments are thorough-only;  the entity fragment (symbolic key into the 2 231-entry entity table) costs > 60 CPU-s per path: thorough only
         for other in ("heading", "list", "quote", "table"):
-            jobs.append({"harness": "contexts", "params": {"cfg": JS, "fragment": frag, "spec": specnl, "name": name, "only": other}, "weight": 6,
-                         "cpu_cap": 2400, "wall_cap": 3600, "path_cap": 120})
+            job = {"harness": "contexts", "params": {"cfg": JS, "fragment": frag, "spec": specnl, "name": name, "only": other}, "weight": 6,
+                   "cpu_cap": 2400, "wall_cap": 3600, "path_cap": 120}
+            if tier == "quick":
+                from ..mdutil import shard_job
+
+                jobs += shard_job(job)
+            else:
+                jobs.append(job)
     for si, sc in enumerate(OPT_SCAFFOLDS):
         if tier == "quick" and si in (1, 3, 4, 5):
             continue
         if tier == "quick":
             fence = any(isinstance(p, str) and ("```" in p or "~~~" in p) for p in sc)
             sc1 = [("x" if p == H("b") else p) for p in sc]
-            jobs.append({"harness": "options", "params": {"cfg": JS, "scaffold": sc1, "spec": spec, "name": "opts", "opts": ["hl", "lp"] if fence else ["xh", "br"]},
-                         "weight": 12, "cpu_cap": 2400, "wall_cap": 3600, "path_cap": 120})
+            from ..mdutil import shard_job
+
+            jobs += shard_job({"harness": "options", "params": {"cfg": JS, "scaffold": sc1, "spec": spec, "name": "opts", "opts": ["hl", "lp"] if fence else ["xh", "br"]},
+                               "weight": 12, "cpu_cap": 2400, "wall_cap": 3600, "path_cap": 120})
         else:
             jobs.append({"harness": "options", "params": {"cfg": JS, "scaffold": sc, "spec": spec, "name": "opts"}, "weight": 30, "cpu_cap": 6000, "wall_cap": 7200})
     if tier == "thorough":
